@@ -23,9 +23,15 @@ prop('C12',
 DERIVE = r'SymmetricKey::<[^>]*>::derive'
 
 
+def layer_bodies(F, key):
+    """The function, its closures and the private helpers extracted from it — but not the KEM below it."""
+    stop = [b.key for b in F.fns() if 'core::primitives' in b.key or b.name in ('encaps', 'decaps') and 'api::Covercrypt' in b.key]
+    return lib.reach_bodies(F, key, stop=stop)
+
+
 def derive_labels(F, key):
     out = []
-    for fb in F.family(key):
+    for fb in layer_bodies(F, key):
         for c in fb.calls(DERIVE):
             out.append((c, lib.const_label(F, fb, c.args[1])))
     return out
@@ -34,8 +40,8 @@ def derive_labels(F, key):
 def kdf_labels(F, key):
     """Labels absorbed by Shake-based kdf256! expansions: the constant update inputs."""
     out = []
-    for fb in F.family(key):
-        for h in trans.transcripts(F, fb):
+    for fb in layer_bodies(F, key):
+        for h in trans.transcripts(F, fb, depth=2):
             if 'Shake' not in h.algo:
                 continue
             labs = [lib.const_label(F, u.body, u.call.args[1]) for u in h.events]
@@ -119,7 +125,7 @@ def framing(ctx):
             ds = [b for b in F.fns() if b.name == 'decrypt' and b.impl_trait and b.impl_trait.endswith('traits::AE')]
             dfam = ds
         else:
-            dfam = [x for x in F.family('encrypted_header::EncryptedHeader::decrypt') if x.calls(c07.DEM_DEC)]
+            dfam = [x for x in layer_bodies(F, 'encrypted_header::EncryptedHeader::decrypt') if x.calls(c07.DEM_DEC)]
         for db in dfam:
             for dcall in db.calls(c07.DEM_DEC):
                 nsl = backward_slice(db, [dcall.args[1]], follow_mutarg=False)
@@ -144,7 +150,7 @@ def guarded_slice(ctx):
         if r not in F.bodies:
             ctx.bad(r, 'anchor-missing', '%s is gone' % r)
             continue
-        for fb in F.family(r):
+        for fb in layer_bodies(F, r):
             for ps in lib.panic_sites(fb):
                 if ps.kind == 'ptrcheck' or (ps.kind == 'overflow' and ps.detail == 'Add'):
                     continue
@@ -152,6 +158,8 @@ def guarded_slice(ctx):
                 why = c14.discharge(ctx, F, ps)
                 if ps.kind == 'index':
                     idx += 1
+                elif ps.kind == 'slice-op' and ps.detail in ('split_at', 'split_at_mut'):
+                    idx += 2
                 what = 'panic-site(%s %s)' % (ps.kind, ps.detail)
                 if why is None and ps.kind == 'unwrap' and ps.call is not None:
                     # Mutex::lock().expect is the only accepted unwrap (poisoning)
@@ -166,7 +174,7 @@ def guarded_slice(ctx):
     for r in roots:
         if r not in F.bodies:
             continue
-        for fb in F.family(r):
+        for fb in layer_bodies(F, r):
             for c in fb.calls(r'traits::KemAc<[^>]*>::decaps$|::decaps$'):
                 uses = []
                 S = {c.dest['l']}
